@@ -115,18 +115,25 @@ def wfCase (c : Case) : Bool := c.probes.all wfRoute && c.ops.all wfOp
     `none` = not expressible in the generated messages -/
 def apiCondIdx : CondCfg → Option Nat
   | .set k _ _ => some (match k with | .prefix => 0 | .neighbor => 1 | .aspath => 2 | .comm => 4 | .ext => 5 | .large => 6)
+  | .plain (.asPathLen ..) => some 3
+  | .plain (.nexthop l) => if l.isEmpty then none else some 7
+  | .plain (.rpki _) => some 8
   | .plain (.localPrefEq _) => some 9
   | .plain (.medEq _) => some 10
-  | _ => none
+  | .plain (.origin n) => if n ≤ 2 then some 11 else none
+  | .plain (.routeType _) => some 12
+  | .plain (.commCount ..) => some 13
+  | .plain (.afiSafiIn l) => if l.isEmpty then none else some 14
 
 def increasing : List Nat → Bool
   | a :: b :: r => a < b && increasing (b :: r)
   | _ => true
 
+/-- a statement the harness can say in an `api::Statement` (everything but extended-community
+    actions, `pass`, out-of-range origins; conditions once per kind in message order) -/
 def apiStmtOk (conds : List CondCfg) (disp : Option Disp) (a : Actions) : Bool :=
   (conds.all (fun c => (apiCondIdx c).isSome)) && increasing (conds.filterMap apiCondIdx) &&
-  disp != some .pass &&
-  a.nexthop.isNone && a.community.isNone && a.asPrepend.isNone && a.ext.isNone && a.large.isNone && a.origin.isNone
+  disp != some .pass && a.ext.isNone && (match a.origin with | some n => n ≤ 2 | none => true)
 
 /-- shape of a `SetPolicies` message: sets, then statements / policies (every statement defined
     once, before the policies that list it, and listed by some policy), then global assignments -/
